@@ -129,7 +129,8 @@ inductive Act where
 def decideExec (f : Flags) (ignoreWant : Bool) (want : Option Str) (unmatched : List Str) :
     ExecResult → Act
   | .compileError ln => .halt false [] (some (.compile, ln.getD 1))
-  | .existingLoop => .halt false [] (some (.existingLoop, 1))
+  -- raised inside `with cap:`: the `finally` clause logs the part (with empty output) like any other
+  | .existingLoop => .halt true [] (some (.existingLoop, 1))
   | .exit out excLine =>
     -- `ExitTestException` is an `Exception`: with a want it first goes through the
     -- expected-exception check like any other; re-raised, it ends the doctest gracefully
